@@ -153,7 +153,8 @@ Setting up the client / Checking the parameters
 // If host is not specified, the DNS SRV should be used to find the host from the domain part of the Jid.
 // Default the port to 5222.
 func NewClient(config *Config, r *Router, errorHandler func(error)) (c *Client, err error) {
-	if config.KeepaliveInterval == 0 {
+	if config.KeepaliveInterval <= 0 {
+		// Also a negative value: time.NewTicker panics on it, in the keepalive go routine, after Connect returned.
 		config.KeepaliveInterval = time.Second * 30
 	}
 	// Parse Jid
